@@ -35,7 +35,11 @@ class MeanToken:
         return f"MeanToken({self.img!r})"
 
 
-class ImgStub:
+class _DaArrayBase:
+    """isinstance target standing for dask.array.Array"""
+
+
+class ImgStub(_DaArrayBase):
     """Image known by shape only.  Local index i on axis a is root index i + origin[a];
     local indices in [valid_lo[a], valid_hi[a]) hold root data, the rest is padding."""
 
@@ -60,6 +64,9 @@ class ImgStub:
     def mean(self, *a, **k):
         return MeanToken(self)
 
+    def compute(self, **kw):
+        return self
+
     def __getitem__(self, key):
         if not isinstance(key, tuple):
             key = (key,)
@@ -83,6 +90,12 @@ class ImgStub:
             valid.append((_simpl(Sym(nlo)), _simpl(Sym(nhi))))
         return ImgStub(shape, self.root, origin, valid, self.fill, self.root_shape)
 
+    # -- the reshape/sum pattern of acryo._utils.bin_image ------------------------------------
+    def reshape(self, *shape):
+        if len(shape) == 1 and isinstance(shape[0], (tuple, list)):
+            shape = tuple(shape[0])
+        return _Reshaped(self, shape)
+
     def padded(self, pads, mode):
         shape, origin, valid = [], [], []
         for ax, (p0, p1) in enumerate(pads):
@@ -97,6 +110,29 @@ class ImgStub:
         return ImgStub(shape, self.root, origin, valid, fill, self.root_shape)
 
 
+class _Reshaped:
+    _symx_passthrough = True
+
+    def __init__(self, base, shape):
+        if len(shape) != 2 * base.ndim:
+            raise Unsupported("ImgStub.reshape: only the (n0, b, n1, b, ...) block pattern is modelled")
+        self.base = base
+        self.shape = tuple(shape)
+        ex = cur()
+        for ax in range(base.ndim):
+            n, b = shape[2 * ax], shape[2 * ax + 1]
+            # numpy would raise ValueError if the sizes do not match
+            ex.oblige("reshape-size", zint(n) * zint(b) == zint(base.shape[ax]))
+
+    def sum(self, axis=None):
+        want = tuple(2 * i + 1 for i in range(self.base.ndim))
+        if tuple(axis) != want:
+            raise Unsupported(f"ImgStub block sum over axes {axis}, expected {want}")
+        bins = tuple(self.shape[2 * i + 1] for i in range(self.base.ndim))
+        out = ImgStub(tuple(self.shape[2 * i] for i in range(self.base.ndim)), root=("binned", self.base, bins))
+        return out
+
+
 def _simpl(s):
     if isinstance(s, Sym):
         v = z3.simplify(s.e)
@@ -109,8 +145,7 @@ def _simpl(s):
 class DaStub:
     """stands for `dask.array` inside loaded modules (shape-only images)"""
 
-    class Array:  # isinstance target
-        pass
+    Array = _DaArrayBase
 
     @staticmethod
     def pad(img, pads, mode="constant", **kw):
